@@ -6,7 +6,7 @@ import types
 import numpy as np
 
 from symx.case import Case, Ang, Holds, run_cases, replay_cases
-from symx.core import R, Dual, CTX, var, PI
+from symx.core import R, Dual, CTX, SB, var, PI
 from symx.stubs import carrier
 
 PROPERTY = "C01"
@@ -452,7 +452,8 @@ def m2e_case(family, maxdepth):
     rec = {}
 
     def pre(v):
-        return [v["e"] < 1] if family == "ell" else [v["e"] > 1]
+        # elliptic: mean anomaly on the central revolution (other revolutions: M2E/ell/side/<k>, the code itself reduces M)
+        return [v["e"] < 1, v["M"] >= -PI, v["M"] < PI] if family == "ell" else [v["e"] > 1]
 
     def run(env, v):
         forms = env.mod("beyond.orbits.forms")
@@ -559,7 +560,7 @@ def m2e_start_case(family):
     def pre(v):
         dom = [v["M"] <= 1000000, v["M"] >= -1000000]
         if family == "ell":
-            return dom + [v["e"] < 1]
+            return [v["e"] < 1, v["M"] >= -PI, v["M"] < PI]
         return dom + [v["e"] > R.const(1.001), v["e"] <= 20]
 
     def env_const(x):
@@ -609,6 +610,67 @@ def m2e_start_case(family):
     return Case(f"M2E/{family}/start", ins, run, ref, pre=pre, timeout=60, maxpaths=64,
                 desc=f"{family}: the Newton start value of M2E stays within +-700 (binary64 sinh/cosh finite) for |M| <= 1e6; "
                      "concretely the returned anomaly is finite")
+
+def m2e_side_case(k):
+    """elliptic M2E for a mean anomaly k revolutions away from zero (M = m0 + 2 pi k, m0 in (-pi, pi], k fixed per case): the Newton start value
+    lies on the side of M where the iteration is monotone, start - M = e sgn(sin M) modulo whole turns (the classical sufficient
+    condition for convergence; from the other side the iteration can enter a cycle and never return).  Replays run the real
+    M2E under a 5 s alarm, also on a panel of mean anomalies several revolutions away from zero."""
+    ins = [("e", "pos"), ("m0", "angle", {"lo": "-pi"})]
+
+    def pre(v):
+        return [v["e"] < 1]
+
+    def run(env, v):
+        forms = env.mod("beyond.orbits.forms") if env.symbolic else importlib.import_module("beyond.orbits.forms")
+        M = v["m0"] + 2 * env.pi * k
+        if env.symbolic:
+            first = []
+            saved = forms.sin
+
+            def hook(x):
+                first.append(x)
+                raise _Stop()
+            forms.sin = hook
+            try:
+                forms.Form.M2E(v["e"], M)
+            except _Stop:
+                pass
+            finally:
+                forms.sin = saved
+            import z3
+            from symx import core
+            d = (R.lift(first[0]) - M).term()
+            s0 = v["m0"].sin().term()
+            q = z3.Int("turns")
+            r = d - 2 * core.PI_T * z3.ToReal(q)
+            cond = z3.ForAll([q], z3.Implies(z3.And(r > -core.PI_T, r < core.PI_T), r * s0 >= 0))
+            return {"start_side": Holds(SB(cond))}
+        import signal
+
+        def _to(*a):
+            raise TimeoutError()
+        signal.signal(signal.SIGALRM, _to)
+        signal.alarm(5)
+        try:
+            with np.errstate(all="ignore"):
+                E = forms.Form.M2E(float(v["e"]), float(M))
+            ok = math.isfinite(E) and abs(E - float(v["e"]) * math.sin(E) - float(M)) < 1e-6 * (1 + abs(float(M)))
+        except TimeoutError:
+            ok = False
+        finally:
+            signal.alarm(0)
+        return {"start_side": Holds(ok)}
+
+    def ref(env, v, out):
+        return {"start_side": None}
+    two_pi = 2 * math.pi
+    return Case(f"M2E/ell/side/{k}", ins, run, ref, pre=pre, timeout=60, maxpaths=64,
+                signature="M2E/ell/side",
+                extra_points=[{"e": 0.9, "m0": -70.6995337803919 + 11 * two_pi}, {"e": 0.9, "m0": 591.515275889481 - 94 * two_pi},
+                              {"e": 0.9, "m0": 1.0}, {"e": 0.9, "m0": -2.0}],
+                desc="elliptic M2E, mean anomaly of any number of revolutions: the Newton start value is M + e sgn(sin M) modulo "
+                     "whole turns (monotone convergence); concretely the real solver returns a root of Kepler's equation within 5 s")
 
 
 # =========================================================================== Infos
@@ -728,7 +790,8 @@ def all_cases(tier):          # noqa: F811  (extends the list defined above)
     for fam in ("ell", "hyp"):
         cs += [ecc_case(fam), ecc_back_case(fam), mean_case(fam), k2c_case(fam), kck_case(fam, 30 if tier == "quick" else 600),
                m2e_case(fam, 8 if tier == "quick" else 11), m2e_start_case(fam), infos_case(fam)]
-    cs += [tle_case(), tle_back_case(), circ_case(False), circ_case(True), equi_case(), c2k_def_case("any")]
+    cs += [tle_case(), tle_back_case(), circ_case(False), circ_case(True), equi_case(), c2k_def_case("any")] + \
+          [m2e_side_case(k) for k in ((-11, 0, 1, 94) if tier == "quick" else (-200, -11, -2, -1, 0, 1, 2, 3, 94, 200))]
     return cs
 
 
